@@ -129,4 +129,11 @@ CHECKS["C06"] = {
   "design_ref": "DESIGN.md §5 C06",
   "note": "Sampled (TLC -simulate), not exhaustive; real sockets, real time. Open finding C06-fragments matched by frame form (fragmented) + deviation (error / different message at the final fragment only).",
 }
+CHECKS["C15"] = {
+  "level": "exploration",
+  "technique": "typed value universe written in TLA+ (Serde.tla) and enumerated by TLC; each value materialised in the harness' concrete Rust type and sent through to_term/from_term and to_bytes/from_bytes with an identity oracle",
+  "text": "572 boundary values over 36 concrete types (every integer width with its min/max and the 2^31 / 2^63 neighbours, floats incl. -0.0 and extremes, chars up to U+10FFFF, strings that look like atoms, options, sequences, tuples, maps with string and integer keys, plain and ElixirStruct-derived structs, all four enum variant shapes, two-level nestings): the value must come back equal (== and Debug rendering) by both paths, or serialisation must fail; never a different value, a panic or an unreadable encoding.",
+  "design_ref": "DESIGN.md §5 C15, §7",
+  "note": "Thin use of the specification: it is the enumerator; the oracle is the identity. Bounded universe.",
+}
 NOT_APPLICABLE = {}
